@@ -78,25 +78,27 @@ Proof. intros w n H Hn. apply used_names. apply (i_vn w H). exact Hn. Qed.
 Definition ext (w w' : wstate) : Prop :=
   (exists vs, w_vars w' = w_vars w ++ vs /\ forall v, In v vs -> ~ In (v_name v) (used w)) /\
   (exists ds, w_dims w' = w_dims w ++ ds /\ forall d, In d ds -> ~ In (fst d) (used w)) /\
-  incl (used w) (used w').
+  incl (used w) (used w') /\ incl (w_names w) (w_names w').
 
 Lemma ext_refl : forall w, ext w w.
 Proof.
-  intros w. split; [|split].
+  intros w. split; [|split; [|split]].
   - exists []. rewrite app_nil_r. split; [reflexivity|intros v []].
   - exists []. rewrite app_nil_r. split; [reflexivity|intros v []].
+  - apply incl_refl.
   - apply incl_refl.
 Qed.
 
 Lemma ext_trans : forall a b c, ext a b -> ext b c -> ext a c.
 Proof.
-  intros a b c [[vs [E1 F1]] [[ds [E2 F2]] I1]] [[vs' [E3 F3]] [[ds' [E4 F4]] I2]]. split; [|split].
+  intros a b c [[vs [E1 F1]] [[ds [E2 F2]] [I1 N1]]] [[vs' [E3 F3]] [[ds' [E4 F4]] [I2 N2]]]. split; [|split; [|split]].
   - exists (vs ++ vs'). rewrite E3, E1, app_assoc. split; [reflexivity|].
     intros v Hv. apply in_app_or in Hv as [Hv|Hv]; [apply F1; exact Hv|].
     intro Hin. apply (F3 v Hv). apply I1. exact Hin.
   - exists (ds ++ ds'). rewrite E4, E2, app_assoc. split; [reflexivity|].
     intros v Hv. apply in_app_or in Hv as [Hv|Hv]; [apply F2; exact Hv|].
     intro Hin. apply (F4 v Hv). apply I1. exact Hin.
+  - eapply incl_tran; eassumption.
   - eapply incl_tran; eassumption.
 Qed.
 
@@ -130,7 +132,10 @@ Lemma ext_dn_incl : forall w w', ext w w' -> incl (DN w) (DN w').
 Proof. intros w w' [_ [[vs [E _]] _]] n H. unfold DN in *. rewrite E, map_app. apply in_or_app; left; exact H. Qed.
 
 Lemma ext_used : forall w w', ext w w' -> incl (used w) (used w').
-Proof. intros w w' [_ [_ H]]; exact H. Qed.
+Proof. intros w w' [_ [_ [H _]]]; exact H. Qed.
+
+Lemma ext_names : forall w w', ext w w' -> incl (w_names w) (w_names w').
+Proof. intros w w' [_ [_ [_ H]]]; exact H. Qed.
 
 (* states that differ in bookkeeping only *)
 Definition same_core (w w' : wstate) : Prop :=
@@ -141,11 +146,12 @@ Proof. intros w w' [E1 [E2 E3]]. unfold used. rewrite E1, E2. reflexivity. Qed.
 
 Lemma ext_same_core : forall w0 w w', ext w0 w -> same_core w w' -> ext w0 w'.
 Proof.
-  intros w0 w w' [[vs [E1 F1]] [[ds [E2 F2]] I]] S. pose proof (same_core_used _ _ S) as U.
-  destruct S as [S1 [S2 S3]]. split; [|split].
+  intros w0 w w' [[vs [E1 F1]] [[ds [E2 F2]] [I N]]] S. pose proof (same_core_used _ _ S) as U.
+  destruct S as [S1 [S2 S3]]. split; [|split; [|split]].
   - exists vs. rewrite S3. tauto.
   - exists ds. rewrite S2. tauto.
   - rewrite U. exact I.
+  - rewrite S1. exact N.
 Qed.
 
 Lemma inv_same : forall w w', Inv0 w -> same_core w w' -> w_coords w' = w_coords w -> Inv0 w'.
@@ -169,11 +175,12 @@ Proof. intros base w n w' H. apply alloc_spec in H as [_ [E1 [E2 _]]]. unfold us
 
 Lemma alloc_ext : forall w0 base w n w', alloc base w = (n, w') -> ext w0 w -> ext w0 w'.
 Proof.
-  intros w0 base w n w' H [[vs [E1 F1]] [[ds [E2 F2]] I]]. pose proof (alloc_used _ _ _ _ H) as U.
-  apply alloc_spec in H as [_ [_ [A2 [A3 _]]]]. split; [|split].
+  intros w0 base w n w' H [[vs [E1 F1]] [[ds [E2 F2]] [I N]]]. pose proof (alloc_used _ _ _ _ H) as U.
+  apply alloc_spec in H as [_ [A1 [A2 [A3 _]]]]. split; [|split; [|split]].
   - exists vs. rewrite A3. tauto.
   - exists ds. rewrite A2. tauto.
   - rewrite U. intros x Hx. right. apply I; exact Hx.
+  - rewrite A1. intros x Hx. right. apply N; exact Hx.
 Qed.
 
 Lemma alloc_inv : forall base w n w', alloc base w = (n, w') -> Inv0 w -> nice base ->
@@ -196,13 +203,14 @@ Qed.
 
 Lemma add_dim_ext : forall w0 w n sz u, ext w0 w -> ~ In n (used w0) -> ext w0 (add_dim n sz u w).
 Proof.
-  intros w0 w n sz u [[vs [E1 F1]] [[ds [E2 F2]] I]] Hn. split; [|split].
+  intros w0 w n sz u [[vs [E1 F1]] [[ds [E2 F2]] [I N]]] Hn. split; [|split; [|split]].
   - exists vs. simpl. tauto.
   - exists (ds ++ [(n, (sz, u))]). simpl. rewrite E2, app_assoc. split; [reflexivity|].
     intros d Hd. apply in_app_or in Hd as [Hd|[Hd|[]]]; [apply F2; exact Hd|subst; exact Hn].
   - intros x Hx. apply I in Hx. unfold used in *. simpl. rewrite map_app. apply in_app_or in Hx as [Hx|Hx].
     + apply in_or_app; left; exact Hx.
     + apply in_or_app; right. apply in_or_app; left; exact Hx.
+  - exact N.
 Qed.
 
 Lemma add_dim_inv : forall w n sz u, Inv0 w -> Inv0 (add_dim n sz u w).
@@ -210,11 +218,12 @@ Proof. intros w n sz u [H1 H2 H3 H4 H5]. constructor; assumption. Qed.
 
 Lemma add_var_ext : forall w0 w v, ext w0 w -> ~ In (v_name v) (used w0) -> ext w0 (add_var v w).
 Proof.
-  intros w0 w v [[vs [E1 F1]] [[ds [E2 F2]] I]] Hn. split; [|split].
+  intros w0 w v [[vs [E1 F1]] [[ds [E2 F2]] [I N]]] Hn. split; [|split; [|split]].
   - exists (vs ++ [v]). simpl. rewrite E1, app_assoc. split; [reflexivity|].
     intros d Hd. apply in_app_or in Hd as [Hd|[Hd|[]]]; [apply F1; exact Hd|subst; exact Hn].
   - exists ds. simpl. tauto.
   - exact I.
+  - exact N.
 Qed.
 
 Lemma attrs_ok_mono : forall w w' v, incl (VN w) (VN w') -> attrs_ok w v -> attrs_ok w' v.
